@@ -753,7 +753,7 @@ func (server *SugarDB) getObjectFreq(ctx context.Context, key string) (int, erro
 
 	var freq int
 	var err error
-	if server.lfuCache.cache != nil {
+	if server.lfuCache.cache != nil && server.lfuCache.cache[database] != nil {
 		server.lfuCache.cache[database].Mutex.Lock()
 		freq, err = server.lfuCache.cache[database].GetCount(key)
 		server.lfuCache.cache[database].Mutex.Unlock()
@@ -773,7 +773,7 @@ func (server *SugarDB) getObjectIdleTime(ctx context.Context, key string) (float
 
 	var accessTime int64
 	var err error
-	if server.lruCache.cache != nil {
+	if server.lruCache.cache != nil && server.lruCache.cache[database] != nil {
 		server.lruCache.cache[database].Mutex.Lock()
 		accessTime, err = server.lruCache.cache[database].GetTime(key)
 		server.lruCache.cache[database].Mutex.Unlock()
